@@ -8,11 +8,15 @@ PID = "C03"
 PROPS_MODULE = "Props.C03"
 THEOREMS = ["cumdecay_is_integral", "cumdecay_stable_zero", "atom_balance", "cumulative_model_is_integral",
             "reference_encloses_cumulative"]
-REQUIRED = ["Props/C03.v", "Model/DecayCheck.v"]
+EXTRA_PROPS = {"Props.C03b": ["decay_eval_error_w", "pf_cum_refines", "ecum_perturbation", "cum_data_error", "default_cum_certificate",
+                             "cum_float_error", "default_cum_float_error"]}
+REQUIRED = ["Props/C03b.v", "Model/FloatCum.v", "Proofs/CertDefault/CumCert.v", "Props/C03.v", "Model/DecayCheck.v"]
 TRANSLATORS = ["tr_data", "synth_dataset", "tr_data_synth", "tr_tables", "tr_pure"]
 SHAPE_KEYS = ["Inventory::cumulative_decays", "InventoryHP::cumulative_decays", "AbstractInventory::_setup_decay_calc",
               "AbstractInventory::_perform_decay_calc", "AbstractInventory::_convert_decay_time", "load_dataset"]
-PARTIAL = ["float/HP error bounds on the cumulative decays are decided per case against the proved enclosure, not by a rounding theorem",
+PARTIAL = ["default_cum_float_error (Props/C03b.v) proves for ALL inputs |cumulative_decays - exact integral| <= 1e-11 x (all initial atoms) + 2^-1000 for the "
+           "double-precision class on the shipped data (assuming the stored diagonal (1-exp(-lambda t))/lambda accurate to 2^-50/lambda, checked per case; "
+           "model tied bit for bit per case); the sharper ancestors-only bound and the high-precision class are decided per case against the proved enclosure",
            "cumulative_decays control flow hand-modelled over R (Model/DecayModel.v)"]
 TRUSTED_BASE = [
     "Coq 8.16.1 kernel incl. vm_compute",
@@ -53,6 +57,8 @@ def correspondence(ctx):
                       "unit": "num", "t": float(f"{10 ** rng.uniform(5, 9):.4g}").hex(), "tunit": "s", "cum": True})
     D.decay_stream(rng, cases, "check_hp_decay Default", "cumulative_hp", streams, viol, samples,
                    "InventoryHP.cumulative_decays: relative 1e-13 of the proved enclosure", shard=2)
+    import corr_floateval as FE
+    FE.floateval_stream(rng, 400 if ctx["tier"] == "thorough" else 40, streams, viol, samples, which=("cum",))
     sn, ss = D.names_of("synth")
     scases = D.gen_cases(rng, sn, ss, 100, 20, "Inventory", ds="synth", cum_every=1)
     D.decay_stream(rng, scases, "check_float_decay Synth", "cumulative_float_synth", streams, viol, samples,
